@@ -577,11 +577,12 @@ pub struct Runner<'c> {
     pub nt_seen: HashSet<u64>,
     pub nt_cap: usize,
     pub steps: u64,
+    pub sampled: u32,
 }
 
 impl<'c> Runner<'c> {
     pub fn new(ctx: &'c mut Ctx) -> Self {
-        Runner { ctx, tally: Tally::default(), violations: 0, nt_seen: HashSet::new(), nt_cap: 8_000, steps: 0 }
+        Runner { ctx, tally: Tally::default(), violations: 0, nt_seen: HashSet::new(), nt_cap: 8_000, steps: 0, sampled: 0 }
     }
 
     pub fn give_up(&self) -> bool {
@@ -663,6 +664,14 @@ impl<'c> Runner<'c> {
             if self.nt_seen.insert(h) {
                 self.ctx.nontrivial(h);
             }
+        }
+        if changed && modes_before != "II" && matches!(op, Op::Union | Op::Intersect | Op::Subtract) && self.sampled < 3 && p.ma.0.len() >= 2 && matches!(res, Ok(Ok(()))) {
+            self.sampled += 1;
+            self.ctx.sample_by_kind(
+                &format!("intset:{}:{}:{}", T::NAME, op.kind(), modes_before),
+                json!({"history": history(), "modes_before(A,B)": modes_before, "modes_after(A,B)": modes_after, "A_len": p.ma.len(),
+                       "A_ranges": truncp(&p.ma.0), "agreed": "every observer"}),
+            );
         }
         match res {
             Ok(Ok(())) => StepOutcome { failed: false },
